@@ -249,4 +249,29 @@ PROPS = {
         "trusted_base": ["the eliminant of z - p(x) (iterated Sylvester determinants of the model) vanishes at p(alpha): classical, not formalised"],
         "assumptions": ["largest elimination step of Sylvester order <= 8; above that only certified non-zero signs are judged"],
     },
+    "C11": {
+        "level": "proof",
+        "lean_targets": ["LP.Props.C11"],
+        "harnesses": [{"name": "h_eval", "quick": 150, "thorough": 4000, "env": {"LPV_EVAL_MODE": "roots"}}],
+        "select": lambda t: t[1] == "ev" and t[2] == "roots",
+        "nontrivial": lambda t, r: True,
+        "rule": "polynomials with main variable y as products of 1-2 factors (y-L, y^2-L, L1*y-L2, (y-L)^2, L1*y^2+L2*y+L3, y^2+L^2+1, "
+                "y^2-2, y^3-L) with coefficients L in {constants, x0, x1, x0+x1, x0*x1, x0^2-2, x1^2-3, x0-1, x0*x1-x2, 2*x0}, optionally "
+                "times a content factor that may vanish, under the C10 value tuples (algebraically dependent algebraic numbers, rationals "
+                "in all representations): rational specialisations, algebraic elimination with spurious conjugate roots, vanishing leading "
+                "coefficients and contents, multiple and rational roots. Every line is non-trivial.",
+        "trusted_base": ["eliminants (iterated Sylvester determinants) contain the roots of the specialised polynomial / vanish at its values: classical, not formalised"],
+        "assumptions": ["algebraic zero tests of Sylvester order <= 8; otherwise the case is skipped and counted"],
+    },
+    "C12": {
+        "level": "proof",
+        "lean_targets": ["LP.Props.C12"],
+        "harnesses": [{"name": "h_eval", "quick": 250, "thorough": 4000, "env": {"LPV_EVAL_MODE": "fs"}}],
+        "select": lambda t: t[1] == "ev" and t[2] in ("fs", "rfs"),
+        "nontrivial": lambda t, r: True,
+        "rule": "the C11 polynomial / assignment families with all six sign conditions, both polarities, and root constraints with root "
+                "indices 0..deg+1. Every line is non-trivial.",
+        "trusted_base": ["as C11"],
+        "assumptions": ["as C11"],
+    },
 }
